@@ -3,7 +3,15 @@ open Model
 open Driver_fp.Conv
 
 let dec_case (f : string array) : string =
-  match Driver_fp.dec_case f with Some r -> r | None -> failwith ("unknown decode type " ^ f.(1))
+  match Driver_fp.dec_case f with
+  | Some r -> r
+  | None ->
+    if f.(1) = "f64" then
+      (match x_DecodeFloat64 (unhex f.(2)) (z_of_string f.(3)) with
+       | None -> "abn # model"
+       | Some ((p, None), v) -> Printf.sprintf "ok %s %s" (string_of_z p) (string_of_z v)
+       | Some ((_, Some _), v) -> "err " ^ string_of_z v)
+    else failwith ("unknown decode type " ^ f.(1))
 
 let str_res (r : ((byte list * z) * errk option) option) : string =
   match r with
@@ -29,15 +37,15 @@ let run_hist (f : string array) : string =
         | Inl (_, Some _) -> "err"
         | Inr _ -> "abn") in
     let o = (match op with
-        | "skip" -> let (r, b) = i_SkipValue d !buf in buf := b; pres_s r
-        | "skipfast" -> let (r, b) = i_SkipValueFast d !buf in buf := b; pres_s r
-        | "valid" -> let (r, b) = i_Valid d !buf in buf := b;
+        | "skip" -> let (r, b) = x_SkipValue d !buf in buf := b; pres_s r
+        | "skipfast" -> let (r, b) = x_SkipValueFast d !buf in buf := b; pres_s r
+        | "valid" -> let (r, b) = x_Valid d !buf in buf := b;
           (match r with Some v -> b2s v | None -> "abn")
         | "harr" | "hobj" ->
           let spec = replace_all (List.nth parts 2) ';' ',' in
           let h = !handler_of spec d in
           let st = (match !buf with None -> [] | Some l -> l) in
-          let r = if op = "harr" then i_handleArrayValues d h st else i_handleObjectValues d h st in
+          let r = if op = "harr" then x_handleArrayValues d h st else x_handleObjectValues d h st in
           (match !buf, r with Some _, MDone (_, _, s) -> buf := Some (stack_of s) | _ -> ());
           let o = !handler_obs_ref r (op = "hobj") (List.length d) in
           let o = (match String.index_opt o '#' with Some i -> String.trim (String.sub o 0 i) | None -> o) in
@@ -47,6 +55,194 @@ let run_hist (f : string array) : string =
   done;
   String.concat " ; " (List.rev !outs)
 
+(* ---------- value trees ---------- *)
+let rec canon (v : jv) : string =
+  match v with
+  | JNull -> "n"
+  | JBool true -> "t"
+  | JBool false -> "f"
+  | JNum b -> "#" ^ string_of_z b
+  | JStr s -> "s" ^ hx s
+  | JArr l -> "[" ^ String.concat "," (List.map canon l) ^ "]"
+  | JObj m ->
+    let items = List.map (fun (k, v) -> (hx k, canon v)) m in
+    let items = List.sort (fun (a, _) (b, _) -> compare (if a = "-" then "" else a) (if b = "-" then "" else b)) items in
+    "{" ^ String.concat "," (List.map (fun (k, v) -> k ^ ":" ^ v) items) ^ "}"
+
+let rec drop n l = if n <= 0 then l else match l with [] -> [] | _ :: r -> drop (n - 1) r
+
+let big_fuel : nat = let rec mk n acc = if n = 0 then acc else mk (n - 1) (S acc) in mk 12000 O
+
+(* does some object have two distinct keys that collide after invalid-UTF-8 replacement? *)
+let rec has_collision (v : jv) : bool =
+  match v with
+  | JArr l -> List.exists has_collision l
+  | JObj m ->
+    let ks = List.map (fun (k, _) -> hx (stdLibCompatibleString k)) m in
+    List.length (List.sort_uniq compare ks) <> List.length ks || List.exists (fun (_, v) -> has_collision v) m
+  | _ -> false
+
+let rres_str (compat : bool) (n : int) (r : ((jv * z) * errk option) option) : string =
+  match r with
+  | None -> "abn # model"
+  | Some ((_, _), Some _) -> "err"
+  | Some ((v, p), None) ->
+    let pi = int_of_z p in
+    if pi < 0 || pi > n then Printf.sprintf "ok-out-of-range %s" (string_of_z p)
+    else if compat && has_collision v then Printf.sprintf "ok %s # collision" (string_of_z p)
+    else Printf.sprintf "ok %s %s" (string_of_z p) (canon (if compat then compat_tree big_fuel v else v))
+
+(* bracket nesting outside strings (upper bound) *)
+let max_depth (d : byte list) : int =
+  let depth = ref 0 and mx = ref 0 and in_str = ref false and esc = ref false in
+  List.iter (fun b ->
+      let c = int_of_byte b in
+      if !in_str then begin
+        if !esc then esc := false
+        else if c = 92 then esc := true
+        else if c = 34 then in_str := false
+      end else begin
+        if c = 34 then in_str := true
+        else if c = 91 || c = 123 then (incr depth; if !depth > !mx then mx := !depth)
+        else if c = 93 || c = 125 then decr depth
+      end) d;
+  !mx
+
+exception Too_deep
+
+let read_op (op : string) (faithful : bool) (d : byte list) =
+  if max_depth d > 2000 then raise Too_deep;
+  match op, faithful with
+  | "rv", false -> x_ReadValue_fast d | "ro", false -> x_ReadObject_fast d | "ra", false -> x_ReadArray_fast d
+  | "rv", true -> x_ReadValue d | "ro", true -> x_ReadObject d | "ra", true -> x_ReadArray d
+  | _ -> failwith ("bad read op " ^ op)
+
+let run_rhist (f : string array) : string =
+  let outs = ref [] in
+  for i = 1 to Array.length f - 1 do
+    let parts = String.split_on_char ':' f.(i) in
+    let d = unhex (List.nth parts 1) in
+    let o = (match read_op (List.nth parts 0) false d with
+        | None -> "abn"
+        | Some ((_, _), Some _) -> "err"
+        | Some ((v, p), None) -> Printf.sprintf "ok_%s_%s" (string_of_z p) (canon v)) in
+    outs := o :: !outs
+  done;
+  String.concat " ; " (List.rev !outs) ^ " ; STABLE"
+
+(* ---------- C08: the composition decoder over the model functions ---------- *)
+let choose (seed : int) (off : int) (depth : int) (k : int) : int =
+  let open Int64 in
+  let x = add (add (mul (of_int seed) 0x9e3779b97f4a7c15L) (mul (of_int off) 0xbf58476d1ce4e5b9L)) (mul (of_int depth) 0x94d049bb133111ebL) in
+  let x = logxor x (shift_right_logical x 29) in
+  let x = mul x 0xbf58476d1ce4e5b9L in
+  let x = logxor x (shift_right_logical x 32) in
+  to_int (unsigned_rem x (of_int k))
+
+type cv = CSkipped | CVal of jv | CArrV of cv list | CObjV of (byte list * cv) list
+
+let rec canon_cv (v : cv) : string =
+  match v with
+  | CSkipped -> "_"
+  | CVal j -> canon j
+  | CArrV l -> "[" ^ String.concat "," (List.map canon_cv l) ^ "]"
+  | CObjV m ->
+    let items = List.map (fun (k, v) -> (hx k, canon_cv v)) m in
+    let items = List.sort (fun (a, _) (b, _) -> compare (if a = "-" then "" else a) (if b = "-" then "" else b)) items in
+    "{" ^ String.concat "," (List.map (fun (k, v) -> k ^ ":" ^ v) items) ^ "}"
+
+exception Abn
+
+(* value: (cv, offset, ok) for the value at the start of data (absolute offset off) *)
+let rec compose_value (seed : int) (read_all : bool) (data : byte list) (off : int) (depth : int) : cv * int * bool =
+  match nextTokenType data with
+  | ((_, p), Some _) -> (CSkipped, int_of_z p, false)
+  | ((tt, _), None) ->
+    let variant = choose seed off depth 4 in
+    let variant = if read_all && (variant = 1 || variant = 2) then 0 else variant in
+    let pres r = (match r with Inl (p, None) -> (CSkipped, int_of_z p, true) | Inl (p, Some _) -> (CSkipped, int_of_z p, false) | Inr _ -> raise Abn) in
+    if variant = 1 then pres (fst (x_SkipValue data None))
+    else if variant = 2 then
+      (match fst (x_SkipValue data None) with
+       | Inl (_, None) -> pres (fst (x_SkipValueFast data (Some [])))
+       | r -> pres r)
+    else begin
+      let tti = int_of_z tt in
+      if tti = 1 then (match x_ReadNull data with Inl (p, None) -> (CVal JNull, int_of_z p, true) | Inl (p, _) -> (CSkipped, int_of_z p, false) | Inr _ -> raise Abn)
+      else if tti = 4 || tti = 5 then begin
+        if variant = 3 then (match x_DecodeBool data false with
+            | Some ((p, None), b) -> (CVal (JBool b), int_of_z p, true)
+            | Some ((p, Some _), _) -> (CSkipped, int_of_z p, false)
+            | None -> raise Abn)
+        else (match x_ReadBool data with
+            | Inl ((b, p), None) -> (CVal (JBool b), int_of_z p, true)
+            | Inl ((_, p), Some _) -> (CSkipped, int_of_z p, false)
+            | Inr _ -> raise Abn)
+      end
+      else if tti = 3 then (match x_ReadFloat64 data with
+          | ((b, p), None) -> (CVal (JNum b), int_of_z p, true)
+          | ((_, p), Some _) -> (CSkipped, int_of_z p, false))
+      else if tti = 2 then begin
+        if variant = 3 then (match x_ReadStringBytes data [] with
+            | Some ((v, p), None) -> (CVal (JStr v), int_of_z p, true)
+            | Some ((_, p), Some _) -> (CSkipped, int_of_z p, false)
+            | None -> raise Abn)
+        else (match x_ReadString data None with
+            | Some (((v, p), None), _) -> (CVal (JStr v), int_of_z p, true)
+            | Some (((_, p), Some _), _) -> (CSkipped, int_of_z p, false)
+            | None -> raise Abn)
+      end
+      else if tti = 8 || tti = 6 then begin
+        let is_obj = (tti = 6) in
+        let memo : (int, (byte list option) * cv * int * bool) Hashtbl.t = Hashtbl.create 16 in
+        let answer (c : call) =
+          let cp = int_of_z c.c_p in
+          (match Hashtbl.find_opt memo cp with
+           | Some r -> r
+           | None ->
+             let key = (if is_obj then
+                          (match x_UnescapeStringContent c.c_key [] with
+                           | Some ((k, _), None) -> Some k
+                           | Some (_, Some _) -> None
+                           | None -> raise Abn)
+                        else Some []) in
+             let r = (match key with
+                 | None -> (None, CSkipped, 0, false)
+                 | Some k ->
+                   let (v, p, ok) = compose_value seed read_all (drop cp data) (off + cp) (depth + 1) in
+                   (Some k, v, p, ok)) in
+             Hashtbl.replace memo cp r; r) in
+        let h : handler = fun calls ->
+          let (_, _, p, ok) = answer (List.hd calls) in
+          { h_pp = z_of_int p; h_err = (if ok then None else Some (z_of_int 1)); h_havoc = [] } in
+        let st = if variant = 3 then [] else [] in
+        let r = if is_obj then x_handleObjectValues data h st else x_handleArrayValues data h st in
+        (match r with
+         | MDone (p, None, s) ->
+           let calls = List.rev s.s_calls in
+           if is_obj then begin
+             let m = List.fold_left (fun acc c ->
+                 let (k, v, _, _) = answer c in
+                 let k = (match k with Some k -> k | None -> []) in
+                 (k, v) :: List.filter (fun (k', _) -> k' <> k) acc) [] calls in
+             (CObjV m, int_of_z p, true)
+           end else (CArrV (List.map (fun c -> let (_, v, _, _) = answer c in v) calls), int_of_z p, true)
+         | MDone (p, Some _, _) -> (CSkipped, int_of_z p, false)
+         | _ -> raise Abn)
+      end
+      else (CSkipped, 0, false)
+    end
+
+let run_compose (f : string array) : string =
+  let d = unhex f.(1) in
+  let seed = int_of_string f.(2) in
+  try
+    (match compose_value seed (f.(3) = "all") d 0 0 with
+     | (_, _, false) -> "err"
+     | (v, p, true) ->
+       if f.(3) = "mix" then Printf.sprintf "ok %d # %s" p (canon_cv v) else Printf.sprintf "ok %d %s" p (canon_cv v))
+  with Abn -> "abn # model"
+
 let run_case (f : string array) : string =
   match f.(0) with
   | "compat" -> hx (stdLibCompatibleString (unhex f.(1)))
@@ -54,14 +250,23 @@ let run_case (f : string array) : string =
   | "frame" ->
     let d = unhex f.(2) and dst = (if f.(3) = "nil" then [] else unhex f.(3)) in
     (match f.(1) with
-     | "rsb" -> str_res (i_ReadStringBytes d dst)
-     | "usc" -> str_res (i_UnescapeStringContent d dst)
+     | "rsb" -> str_res (x_ReadStringBytes d dst)
+     | "usc" -> str_res (x_UnescapeStringContent d dst)
      | "compatb" -> Printf.sprintf "ok 0 %s" (hx (stdLibCompatibleStringBytes d dst))
      | "rs" ->
-       (match i_ReadString d (if f.(3) = "nil" then None else Some dst) with
+       (match x_ReadString d (if f.(3) = "nil" then None else Some dst) with
         | Some (((v, p), None), _) -> Printf.sprintf "ok %s %s" (string_of_z p) (hx v)
         | Some ((_, Some _), _) -> "err"
         | None -> "abn # model")
      | o -> failwith ("bad frame op " ^ o))
   | "hist" -> run_hist f
+  | "rv" | "ro" | "ra" -> (try let d = unhex f.(1) in rres_str false (List.length d) (read_op f.(0) false d) with Too_deep -> "-")
+  | "rva" | "roa" | "raa" -> (try let d = unhex f.(1) in rres_str false (List.length d) (read_op (String.sub f.(0) 0 2) true d) with Too_deep -> "-")
+  | "rvc" | "roc" | "rac" -> (try let d = unhex f.(1) in rres_str true (List.length d) (read_op (String.sub f.(0) 0 2) false d) with Too_deep -> "-")
+  | "rhist" -> (try run_rhist f with Too_deep -> "-")
+  | "f64" ->
+    (match x_ReadFloat64 (unhex f.(1)) with
+     | ((b, p), None) -> Printf.sprintf "ok %s %s" (string_of_z b) (string_of_z p)
+     | (_, Some _) -> "err")
+  | "compose" -> run_compose f
   | _ -> failwith ("unknown op " ^ f.(0))
